@@ -3,8 +3,8 @@ GAF files generated line by line; every figure of the report is compared with an
 definitions (exact rational arithmetic, own line parser), and the report must be the same for every order of the records.
 
 Floating point: the three averages are recomputed as exact fractions; the printed value must be the correctly rounded decimal.
-Only when the exact value lies within 1e-9 of a rounding tie both neighbouring decimals are accepted (counted in the section
-`float-tie-tolerated`); an order-dependent report is tolerated only in that situation."""
+Only when the exact value lies within 1e-9 of a rounding tie both neighbouring decimals are accepted (counted and reported in
+the rule text); an order-dependent report is tolerated only in that situation (also counted)."""
 import contextlib
 import io
 import itertools
@@ -19,6 +19,7 @@ INT_LABELS = ["Total alignments", "Primary", "Secondary", "Reads with at least o
 FLOAT_LABELS = [("Average mapping quality", 1), ("Average highest sequence identity", 3), ("Average highest map ratio", 3)]
 CIGAR_LABELS = [("Total deletion regions", "D"), ("Total insertion regions", "I"), ("Total substitution regions", "X"), ("Total match regions", "=")]
 PERFECT = "Total perfect alignments (exact match)"
+STATS = {"tie_figures": 0, "order_dependent_last_digit": 0}
 
 
 # ---------------------------------------------------------------- independent recomputation -----------------------------------------
@@ -175,11 +176,11 @@ def evaluate(ctx, section, d, lines, cigar, bgzf=False, base=None, nontrivial=Tr
         ctx.fail(section, "gaftools stat%s on %d records (first %r): %s" % (" --cigar" if cigar else "", len(lines), lines[0][:50], what), case)
         return None
     if ties:
-        ctx.case("float-tie-tolerated", (tuple(lines), cigar), nontrivial=False)
+        STATS["tie_figures"] += ties
     if base is not None:
         s = same_report(lines, base[1], text)
         if s == "tie":
-            ctx.case("float-tie-tolerated", (tuple(lines), cigar, "perm"), nontrivial=False)
+            STATS["order_dependent_last_digit"] += 1
         elif s != "same":
             case["base"] = list(base[0])
             ctx.fail(section + "-order", "report of gaftools stat%s changes when the %d records are reordered: %s" % (" --cigar" if cigar else "", len(lines), s), case)
@@ -251,6 +252,7 @@ def is_secondary(l):
 
 def run(ctx):
     rng = ctx.rng
+    STATS.update(tie_figures=0, order_dependent_last_digit=0)
     for name, f in sorted(defects.for_property("C19").items()):
         ctx.case("regression", name)
         try:
@@ -316,7 +318,9 @@ def run(ctx):
     return ("one case = one run of the real `gaftools stat [--cigar] -o` on a generated GAF (record sequence); every printed figure must equal the "
             "recomputation from the definitions (exact fractions; secondary = tp:A other than P or MAPQ <= 0; per-read maxima over primary records; "
             "CIGAR run counts, >= 50 variants, single-run = perfect; mapping quality = sum over primary / all records as the tool defines it) and the "
-            "report must be identical for all orders of the same records; distinct = distinct (record sequence, --cigar, compression)")
+            "report must be identical for all orders of the same records; distinct = distinct (record sequence, --cigar, compression). "
+            "In this run %d printed averages sat on an exact rounding tie (either neighbouring decimal accepted) and %d reports differed between "
+            "orders in the last digit of such a figure (tolerated)" % (STATS["tie_figures"], STATS["order_dependent_last_digit"]))
 
 
 def replay(ctx, rec_):
